@@ -503,6 +503,24 @@ def run(ctx):
         jobs.append((i, h, orient, line, N, ctx.seed * 3 + i, ctx.scratch, 1 if i % 5 == 0 else 2 if i % 5 in (1, 3) else 0))
     btr = fixtures.pmap(border_job, jobs, ctx.workers, chunksize=4)
     ctx.evaluations += len(btr)
+    # a longer line (6 positions, two strokes): an earlier stroke that neither starts at the first position nor reaches the last one,
+    # and a later one strictly inside it (add_stroke splits the earlier run into a head and a tail)
+    N6 = 6
+    bh6, _ = dump_histories(ctx, "Borders", bcfg % (N6, 2, "none", ""), "Gen_Borders[6 positions]")
+
+    def inner(h):
+        a, b = h[0], h[1]
+        return (len(h) == 2 and a["o"] >= 2 and a["o"] + a["len"] - 1 < N6 and not str(b["v"]).startswith("touch") and b["v"] != "reopen"
+                and b["o"] > a["o"] and b["o"] + b["len"] < a["o"] + a["len"])
+    bh6 = [h for h in bh6 if len(h) == 2 and not any(str(x["v"]).startswith("touch") or x["v"] == "reopen" or x["o"] == 0 for x in h)]
+    split = [h for h in bh6 if inner(h)]
+    rest6 = [h for h in bh6 if not inner(h)]
+    sel6 = rng.sample(split, min(len(split), 40 if q else 400)) + rng.sample(rest6, min(len(rest6), 40 if q else 600))
+    jobs6 = [(50000 + i, h, "h" if i % 2 == 0 else "v", rng.choice([0, 1, 3]), N6, ctx.seed * 3 + 50000 + i, ctx.scratch, 0) for i, h in enumerate(sel6)]
+    btr6 = fixtures.pmap(border_job, jobs6, ctx.workers, chunksize=4)
+    ctx.evaluations += len(btr6)
+    for t in btr6:
+        ctx.distinct.add(("b6", json.dumps(t["meta"]["strokes"]), t["meta"]["orient"], t["meta"]["line"]))
     for t in btr:
         ctx.distinct.add(("b", json.dumps(t["meta"]["strokes"]), t["meta"]["orient"], t["meta"]["line"]))
     ctx.sample({"strokes": btr[0]["meta"]["strokes"], "line": [btr[0]["meta"]["orient"], btr[0]["meta"]["line"]], "after_last_stroke_open": btr[0]["ev"][-1]["oa"],
@@ -515,6 +533,8 @@ def run(ctx):
                                                                                                  ev["oa"], ev["ob"], ev["ra"], ev["rb"]), t["meta"])
     tracecheck.validate(ctx, "Trace_Borders", TB_CFG(N),
                         btr, "borders", brej, batch=400, payload=lambda t: {"init": t["init"], "ev": t["ev"]})
+    tracecheck.validate(ctx, "Trace_Borders", TB_CFG(N6),
+                        btr6, "borders-6", brej, batch=400, payload=lambda t: {"init": t["init"], "ev": t["ev"]})
     # fixture tables that already carry borders: the first stroke after loading, over an existing border
     ctx.stage("fixture-borders")
     fx = fixtures.readable_fixtures(ctx.workers)
